@@ -19,6 +19,7 @@ import (
 
 	"github.com/go-faster/yaml"
 	"github.com/ogen-go/ogen/jsonpointer"
+	"github.com/ogen-go/ogen/location"
 
 	"verif/internal/vf"
 )
@@ -342,6 +343,26 @@ func judge(doc string, root *yaml.Node, p string) (cl string, k kase, lenientOut
 		k.Got = describe(got)
 	}
 	hit = wok
+	// the same fragment-form pointer taken as a reference inside a document that was itself reached
+	// through a reference (non-empty location stack): the key ogen forms must resolve like the
+	// reference itself (a $ref nested under another $ref goes through ResolveCtx.Key)
+	if pan == nil && strings.HasPrefix(p, "#") {
+		ctx := jsonpointer.NewResolveCtx(jsonpointer.DummyURL(), 1000)
+		if e := ctx.AddKey(jsonpointer.RefKey{Loc: jsonpointer.DummyURL().String(), Ptr: "#/outer"}, location.File{}); e == nil {
+			if key, e := ctx.Key(p); e == nil {
+				var got2 *yaml.Node
+				var err2 error
+				func() {
+					defer func() { pan = recover() }()
+					got2, err2 = jsonpointer.Resolve(key.Ptr, root)
+				}()
+				if pan == nil && ((err == nil) != (err2 == nil) || (err == nil && got2 != got)) {
+					k.Got = fmt.Sprintf("directly: %s; through the reference key %q: %s (err %v)", k.Got, key.Ptr, describe(got2), err2)
+					return "nested-reference-key-resolves-differently", k, false, hit
+				}
+			}
+		}
+	}
 	switch {
 	case pan != nil:
 		k.Got = fmt.Sprint("panic: ", pan)
